@@ -19,6 +19,7 @@ package jsonrpc
 //@ property C07 units: (*wsConn).handleOutChans, (*wsConn).handleOutChans$1, (*wsConn).handleChanOut, (*handler).handle, (*wsConn).handleResponse, (*wsConn).handleChanMessage, (*client).makeOutChan$1$1, (*client).makeOutChan$1$2, (*wsConn).handleFrame
 //@ property C08 units: (*wsConn).handleOutChans, (*wsConn).handleChanClose, (*wsConn).closeChans, (*wsConn).handleChanMessage, (*wsConn).tryReconnect, (*wsConn).handleWsConn, (*client).makeOutChan$1$1, (*client).makeOutChan$1$2, (*wsConn).handleResponse
 //@ property C11 units: (*handler).createError, (*Errors).Register, NewErrors, (*JSONRPCError).val, (*JSONRPCError).Error, (*rpcFunc).processResponse, (*rpcFunc).processError, (*handler).handle, (response).MarshalJSON, processFuncOut, (*wsConn).handleResponse
+//@ property C01 units: processFuncOut, (*param).MarshalJSON, (*param).UnmarshalJSON, (*client).makeRpcFunc, (*client).provide, (*rpcFunc).handleRpcCall, (*rpcFunc).processResponse, (*rpcFunc).processError, (*client).sendRequest, NewCustomClient$1, httpClient$1, (*client).setupRequestChan$1, (*handler).register, (*handler).handle, doCall, (response).MarshalJSON, (*wsConn).handleResponse, (*wsConn).handleCall, NewMethodNameFormatter$1, (*RPCServer).AliasMethod
 //@ property C13 units: doCall, (*handler).handle, rpcError$1
 
 //@ -- ------------------------------------------------------------------ shared vocabulary
@@ -28,7 +29,7 @@ package jsonrpc
 //@ axiom error-typed-values: forall v: U :: rtypeOf(v) == errorType ==> (ifaceOf(v) == nil || istype(ifaceOf(v), #error))
 //@ axiom codec-typed-values: forall v: U :: rImplements(rtypeOf(v), errorCodecRT) ==> istype(ifaceOf(v), #RPCErrorCodec)
 //@ axiom marshalable-typed-values: forall v: U :: rImplements(rtypeOf(v), marshalableRT) ==> istype(ifaceOf(v), #marshalable)
-//@ pred wfRpcFunc(fn) := fn.client != nil && fn.nout >= 0 && (fn.valOut == -1 || (0 <= fn.valOut && fn.valOut < fn.nout)) && (fn.errOut == -1 || (0 <= fn.errOut && fn.errOut < fn.nout)) && (fn.hasCtx == 0 || fn.hasCtx == 1) && fn.nout == NumOut(fn.ftyp) && (fn.valOut == -1 || fn.errOut == -1 || fn.valOut != fn.errOut)
+//@ pred wfRpcFunc(fn) := fn.client != nil && fn.nout >= 0 && (fn.valOut == -1 || (0 <= fn.valOut && fn.valOut < fn.nout)) && (fn.errOut == -1 || (0 <= fn.errOut && fn.errOut < fn.nout)) && (fn.hasCtx == 0 || fn.hasCtx == 1) && fn.nout == NumOut(fn.ftyp) && (fn.returnValueIsChannel ==> fn.valOut != -1) && (fn.valOut == -1 || fn.errOut == -1 || fn.valOut != fn.errOut)
 
 //@ -- output automaton of an HTTP reply: 0 empty, 1 one value, 2 '[' written, 3 array ends with a value, 4 array ends with ',', 5 closed, 9 malformed
 //@ pred tokOf(b) := ite(isbytes(b, "["), 1, ite(isbytes(b, ","), 2, ite(isbytes(b, "]"), 3, 0)))
@@ -366,6 +367,13 @@ package jsonrpc
 //@   modifies nothing
 //@   requires rpcError != nil && w != nil && done != nil && handlersOK(s)
 //@   loop 1 invariant param-index: i >= 0 [C10,C01,C12]
+//@   loop 1 invariant params-decoded-positionally: len(callParams) == 1 + handler.hasCtx + handler.nParams && callParams[0] == handler.receiver && (forall k :: 0 <= k && k < i ==> (!present(s.paramDecoders, handler.paramReceivers[k]) ==> callParams[k + 1 + handler.hasCtx] == valueOf(ifaceOf(elemOf(newOf(handler.paramReceivers[k])))))) [C01]
+//@   at call bytes.NewReader: assert decodes-the-ith-positional-param: $0 == ps[i].data [C01,C12]
+//@   at call reflect.New: assert decodes-into-the-declared-parameter-type: $0 == handler.paramReceivers[i] [C01]
+//@   at call (*encoding/json.Decoder).Decode: assert decodes-into-the-fresh-value: $1 == ifaceOf(newOf(handler.paramReceivers[i])) [C01]
+//@   at call doCall: assert call-arguments-positional: len($2) == 1 + handler.hasCtx + handler.nParams && $2[0] == handler.receiver && $2 == callParams [C01]
+//@   at call reflect.ValueOf: assert raw-params-passed-verbatim: boxedas($0, #RawParams) ==> handler.hasRawParams && unbox($0, #RawParams) == req.Params [C01]
+//@   at call withLazyWriter: assert result-is-the-handlers-value-output: resp.Error == nil && handler.valOut != -1 ==> resp.Result == ifaceOf(callResult[handler.valOut]) [C01,C11]
 //@   ghost callErr : U = nil
 //@   at ret doCall: set callErr = $result1
 //@   ensures done-always-runs: calls(done) >= 1 [C13,C06,C15]
@@ -508,6 +516,7 @@ package jsonrpc
 //@   at mapset handler.methods: assert ctx-detected-from-signature: ($val.hasCtx == 1) == (NumIn(rtypeOf(method.Func)) >= 2 && InT(rtypeOf(method.Func), 1) == contextType) [C12,C01]
 
 //@ func (*RPCServer).AliasMethod
+//@   modifies handler.aliasedMethods
 //@   requires s.handler != nil && s.handler.aliasedMethods != nil
 //@   at mapset handler.aliasedMethods: assert alias-maps-to-original: $key == alias && $val == original [C12]
 //@   ensures one-entry: true [C12]
@@ -541,6 +550,9 @@ package jsonrpc
 //@   at store rpcFunc.retry: assert retry-only-when-tagged: $val == (tagRetry == "true") [C04,C05]
 //@   at store rpcFunc.notify: assert notify-only-when-tagged: $val == (tagNotify == "true") [C04]
 //@   at store rpcFunc.client: assert every-proxy-shares-the-one-client: $val == c [C02]
+//@   at store rpcFunc.ftyp: assert proxy-typed-as-the-field: $val == f.Type [C01]
+//@   at store rpcFunc.hasCtx: assert ctx-detected-from-signature: $val == 1 && NumIn(f.Type) > 0 && InT(f.Type, 0) == contextType [C01]
+//@   at store rpcFunc.hasRawParams: assert raw-params-only-as-sole-argument: $val ==> NumIn(f.Type) == fun.hasCtx + 1 && InT(f.Type, fun.hasCtx) == rtRawParams [C01]
 //@   at call reflect.MakeFunc: assert proxy-runs-handleRpcCall: isfn($1, "(*rpcFunc).handleRpcCall") && $0 == f.Type [C01,C04]
 
 //@ func doCall
@@ -598,6 +610,13 @@ package jsonrpc
 //@   at call time.Sleep: set slept = true
 //@   at call time.Sleep: assert retry-spaced-by-backoff: $0 >= 100000000 [C05]
 //@   loop 2 invariant retry-state: attempt >= 0 && (calls(sendRequest) == 0 || (fn.retry && !lastErrNil && lastCode == -1111111 && slept)) && (attempt == 0) == (calls(sendRequest) == 0) [C04,C05]
+//@   loop 1 invariant args-marshalled-positionally: len(params) == len(args) - fn.hasCtx && (forall k :: 0 <= k && k <= rangeindex ==> (!present(fn.client.paramEncoders, rtypeOf(args[fn.hasCtx + k])) ==> params[k].v == args[fn.hasCtx + k])) [C01]
+//@   at call encoding/json.Marshal: assert marshals-every-positional-argument-in-order: unbox($0, #[]param) == params && rangeindex == len(params) && (forall k :: 0 <= k && k < len(params) ==> (!present(fn.client.paramEncoders, rtypeOf(args[fn.hasCtx + k])) ==> params[k].v == args[fn.hasCtx + k])) [C01]
+//@   at call (*client).sendRequest: assert request-carries-the-marshalled-params: $2.Params == serializedParams && $2.Jsonrpc == "2.0" [C01,C09]
+//@   at call reflect.New: assert result-decoded-into-the-declared-result-type: $0 == OutT(fn.ftyp, fn.valOut) && fn.valOut != -1 [C01]
+//@   at ret reflect.New: let rval = $result0
+//@   at call encoding/json.Unmarshal: assert decodes-the-response-result: $0 == resp.Result && $1 == ifaceOf(rval) && resp.Result != nil [C01]
+//@   at call processResponse: assert hands-back-the-decoded-value: calls(New) >= 1 ==> $2 == elemOf(rval) [C01]
 //@   at call processResponse: assert response-id-checked: fn.notify || resp.ID == req.ID [C02]
 //@   at call normalizeID: assert fresh-counter-id: calls(AddInt64) == 1 [C02]
 //@   ensures at-most-one-send-unless-retry-tagged: !fn.retry ==> calls(sendRequest) <= 1 [C04]
@@ -699,3 +718,13 @@ package jsonrpc
 //@ func (*JSONRPCError).Error
 //@   modifies nothing
 //@   ensures user-codes-give-message-verbatim: !(e.Code >= -32768 && e.Code <= -32000) ==> result == e.Message [C11]
+
+//@ func (*param).UnmarshalJSON
+//@   safety
+//@   ensures keeps-a-private-copy-of-the-raw-bytes: result == nil && len(p.data) == len(raw) && p.data.base != raw.base && (forall k :: 0 <= k && k < len(raw) ==> p.data[k] == raw[k]) [C01]
+
+//@ func (*param).MarshalJSON
+//@   ghost mres : U = nil
+//@   at call encoding/json.Marshal: assert marshals-the-wrapped-value: $0 == ifaceOf(p.v) && KindOf(rtypeOf(p.v)) != 0 [C01]
+//@   ensures raw-bytes-pass-through: KindOf(rtypeOf(p.v)) == 0 ==> result0 == p.data && result1 == nil && calls(Marshal) == 0 [C01]
+//@   ensures value-marshalled-once: KindOf(rtypeOf(p.v)) != 0 ==> calls(Marshal) == 1 [C01]
